@@ -1,11 +1,13 @@
 #!/usr/bin/env python3
 # generates the per-kind case analyses of Sipsp/Proofs/SafeHdrLine.lean (parseBody_safe, hlCont_safe)
 six = ['from_', 'to', 'callid', 'cseq', 'clen', 'expires']
-def mk(kind, P, H='Hm', ct=None, pa=None):
+def mk(kind, P, H='Hm', ct=None, pa=None, ctin=None, pain=None):
     comps = [P if k == kind else f'{H}.{k}' for k in six]
     ctS, ctI = ct if ct else ('(fun hh => by cases hh)', f'fun _ => {H}.ctI hn1')
     paS, paI = pa if pa else ('(fun hh => by cases hh)', f'fun _ => {H}.paI hn2')
-    return '⟨' + ', '.join(comps + [ctS, ctI, paS, paI]) + '⟩'
+    ci = ctin if ctin else f'{H}.ctIn'
+    pi = pain if pain else f'{H}.paIn'
+    return '⟨' + ', '.join(comps + [ctS, ctI, paS, paI, ci, pi]) + '⟩'
 fineF = ['from_', 'to', 'callid', 'cseq', 'clen', 'expires', 'contacts', 'pais']
 def mkfine(kind, P):
     return '⟨' + ', '.join(P if k == kind else f'HF.{k}' for k in fineF) + '⟩'
@@ -122,7 +124,7 @@ theorem parseBody_safe (b : Buf) (o : Nat) (h : Hdr) (hv : PHdrVals) (hst : h.st
             A(f'    have hc0 : (if h.state != .{st} then {{ hv.{kind} with hNo := hv.{kind}.hNo + 1, lastHVal := {{}} }} else hv.{kind}) =')
             A(f'        {{ hv.{kind} with hNo := hv.{kind}.hNo + 1, lastHVal := {{}} }} := by rw [hst]; rfl')
             A(f'    rw [hc0] at hr')
-            A(f'    have hS := {fn}_safe_new b o hv.{kind} (hv.{kind}.hNo + 1) hfit ho (H.{"ctI hn1" if isct else "paI hn2"})')
+            A(f'    have hS := {fn}_safe_new b o hv.{kind} (hv.{kind}.hNo + 1) hfit ho (H.{"ctI hn1" if isct else "paI hn2"}) H.{"ctIn" if isct else "paIn"}')
             A(f'    rcases hq : {fn} b o {{ hv.{kind} with hNo := hv.{kind}.hNo + 1, lastHVal := {{}} }} with ⟨n1, e1, f1⟩')
             A(f'    rw [hq] at hr hS; simp only [Prod.mk.injEq] at hr')
             A(f'    obtain ⟨rfl, rfl, rfl, rfl⟩ := hr')
@@ -140,8 +142,9 @@ theorem parseBody_safe (b : Buf) (o : Nat) (h : Hdr) (hv : PHdrVals) (hst : h.st
                 else:
                     A(f'      show HvSafe b n1 HState.{st} _')
                     lst = ('fun _ => hS.2.1 rfl', 'fun hh => absurd rfl hh')
-                if isct: A(f'      exact {mk(None, None, ct=lst)}')
-                else: A(f'      exact {mk(None, None, pa=lst)}')
+                inn = '(hS.2.2.1 rfl).2.2' if case == 'ok' else '(hS.2.1 rfl).inn'
+                if isct: A(f'      exact {mk(None, None, ct=lst, ctin=inn)}')
+                else: A(f'      exact {mk(None, None, pa=lst, pain=inn)}')
         A(f'  simp only [h_{kind}, Bool.false_eq_true, ↓reduceIte] at hr')
     A('  exact hskip hr')
     return '\n'.join(L)
@@ -225,8 +228,9 @@ theorem hlCont_safe (b : Buf) (o : Nat) (h : Hdr) (hv : PHdrVals) (ho : o ≤ b.
                 else:
                     lst = ('fun _ => hS.2.1 rfl', 'fun hh => absurd rfl hh')
                     first = '(by show h.state = _; exact hst)'
-                if isct: A(f'      exact ⟨{first}, {mk(None, None, ct=lst)}⟩')
-                else: A(f'      exact ⟨{first}, {mk(None, None, pa=lst)}⟩')
+                inn = '(hS.2.2.1 rfl).2.2' if case == 'ok' else '(hS.2.1 rfl).inn'
+                if isct: A(f'      exact ⟨{first}, {mk(None, None, ct=lst, ctin=inn)}⟩')
+                else: A(f'      exact ⟨{first}, {mk(None, None, pa=lst, pain=inn)}⟩')
     return '\n'.join(L)
 
 if __name__ == '__main__':
